@@ -121,3 +121,60 @@ def resolve_roles(F):
             del FX.FIELD_ALIAS[canon]
         out[role] = names
     return out
+
+
+def builder_fidelity(ck, F, rid, fn, cls, key, params=None):
+    """a fluent builder method `X &X::name(args)` adds exactly one handler, of class `cls`, constructed from its own parameters unchanged,
+    on every path, and does nothing else to the handler list.  A deviation is *undecided* (the substitute may be equivalent: merging
+    two thresholds correctly, skipping a filter that passes everything) unless it is definite: the handler is built without the
+    caller's argument, or nothing of the class is built at all.
+    params: indices of the method's parameters that must be the constructor arguments, in order (default: all of them)."""
+    from engine.util import Graph, sitestr, is_ref_to, skip_copies, describe, name_is
+    g = Graph(fn)
+    short = fn.name.split("::")[-1]
+    cname = cls.split("::")[-1]
+    creates = [n for n in fn.calls() if (n.get("callee") or "").endswith("::create") and "QSharedPointer<" in (n.get("callee") or "")]
+    news = [n for n in fn.all_nodes() if n.get("k") == "new"]
+    right = [n for n in creates if (n.get("callee") or "").startswith("QSharedPointer<%s>::" % cls)]
+    wrong = [n for n in creates if n not in right]
+    want = list(range(len(fn.params))) if params is None else list(params)
+    good = True
+
+    def verbatim(a, i):
+        a = skip_copies(a)
+        if is_ref_to(a, fn.params[i]["decl"]):
+            return True
+        if a.get("k") in ("call", "construct") and len(a.get("args", [])) == 1 and name_is(a.get("callee") or a.get("class") or "", ("move", "std::move", "forward", "std::forward")):
+            return is_ref_to(skip_copies(a["args"][0]), fn.params[i]["decl"])
+        return False
+
+    if not right:
+        ck.ob(rid, sitestr(fn), False, "%s() builds no %s at all" % (short, cname), key="%s|create-count" % key)
+        return False
+    if wrong or news:
+        x = (wrong or news)[0]
+        good = False
+        ck.ob(rid, sitestr(fn, x), None, "%s() also builds %s: whether messages judged by it get the verdict a %s would give is not decided here" % (short, describe(x)[:60], cname), key="%s|other-handler" % key)
+    for c in right:
+        args = [a for a in c.get("args", []) if a.get("k") != "defaultarg"]
+        okargs = len(args) == len(want) and all(verbatim(a, i) for a, i in zip(args, want))
+        written = [n for n in fn.all_nodes() if n.get("k") == "binop" and n.get("op") in ("=", "+=", "-=", "*=", "|=", "&=") and any(is_ref_to(n.get("lhs"), fn.params[i]["decl"]) for i in want)]
+        mentioned = all(any(x.get("k") == "ref" and x.get("decl") == fn.params[i]["decl"] for a in args for x in walk(a)) for i in want)
+        v = True if (okargs and not written) else False if not mentioned else None
+        good = good and v is True
+        ck.ob(rid, sitestr(fn, c), v, "%s() constructs the %s from its argument%s unchanged" % (short, cname, "s" if len(want) != 1 else "") if v else
+              "%s() constructs the %s from %s%s" % (short, cname, [describe(a)[:40] for a in args], ": the caller's argument is not used" if v is False else ", a value computed from the caller's argument"), key="%s|create-args" % key)
+    if len(right) > 1:
+        good = False
+        ck.ob(rid, sitestr(fn), None, "%s() has %d construction sites for %s" % (short, len(right), cname), key="%s|create-count" % key)
+    apps = [n for n in fn.calls() if name_is(n.get("callee"), ("QtLogger::Pipeline::append", "append", "appendFilter", "appendAttrHandler", "appendSink", "appendFormatter", "setFormatter", "operator<<"))
+            and any(x.get("id") in {c["id"] for c in right} for a in n.get("args", []) for x in walk(a))]
+    okapp = len(apps) == 1 and g.must_pass({g.site_of(apps[0])})
+    good = good and okapp
+    ck.ob(rid, sitestr(fn, apps[0] if apps else right[0]), True if okapp else None, "%s() appends that handler on every path" % short if okapp else
+          "%s() does not append a freshly built %s on every path" % (short, cname), key="%s|append-always" % key)
+    others = [n for n in fn.calls() if (name_is(n.get("callee"), ("QtLogger::Pipeline::handlers", "handlers", "clear", "remove", "insert", "prepend", "removeLast", "takeLast", "replace")) and n not in apps)]
+    good = good and not others
+    ck.ob(rid, sitestr(fn, others[0] if others else None), True if not others else None, "%s() does nothing else to the handler list" % short if not others else
+          "%s() also edits the handler list through %s (an earlier handler is replaced or merged)" % (short, describe(others[0])[:50]), key="%s|list-edit" % key)
+    return good
